@@ -460,11 +460,31 @@ static void reset_state(void)
 	pset_compact();
 	live0 = live; fds0 = fd_table_signature();
 }
+/* bind to port 0; ephemeral-port exhaustion is an environment condition: wait for it to drain */
+static int bind_any_port(int fd, struct sockaddr_in *sin)
+{
+	int rc = -1;
+	for (int attempt = 0; attempt < 3000; attempt++) {
+		rc = bind(fd, (struct sockaddr *)sin, sizeof *sin);
+		if (rc == 0 || (errno != EADDRINUSE && errno != EADDRNOTAVAIL)) break;
+		MC_COUNT("env_bind_retries");
+		usleep(20000);
+	}
+	return rc;
+}
 static int server_setup(void)
 {
 	http = evhttp_new(base);
 	if (!http) return -1;
-	bound = evhttp_bind_socket_with_handle(http, "127.0.0.1", 0);
+	/* Port 0 = "any free port".  The only way this can fail is the machine running out of ephemeral
+	 * ports (TIME_WAIT leftovers of the thousands of earlier executions, here or in other checks): an
+	 * environment condition, not a verdict -- wait for ports to drain instead of reporting. */
+	for (int attempt = 0; attempt < 3000; attempt++) {
+		bound = evhttp_bind_socket_with_handle(http, "127.0.0.1", 0);
+		if (bound || (errno != EADDRINUSE && errno != EADDRNOTAVAIL)) break;
+		MC_COUNT("env_bind_retries");
+		usleep(20000);
+	}
 	if (!bound) return -1;
 	port = local_port(evhttp_bound_socket_get_fd(bound));
 	rpcbase = evrpc_init(http);
@@ -580,7 +600,7 @@ static void scenario_e2e(void)
 	if (server_gone) {
 		struct sockaddr_in sin; memset(&sin, 0, sizeof sin); sin.sin_family = AF_INET; sin.sin_addr.s_addr = htonl(INADDR_LOOPBACK);
 		dead_fd = socket(AF_INET, SOCK_STREAM, 0);
-		if (dead_fd < 0 || bind(dead_fd, (struct sockaddr *)&sin, sizeof sin) < 0) mc_fail("harness:dead-port", "%s", strerror(errno));
+		if (dead_fd < 0 || bind_any_port(dead_fd, &sin) < 0) mc_fail("harness:dead-port", "%s", strerror(errno));
 		connect_port = local_port(dead_fd);
 	}
 	for (int i = 0; i < nconn; i++) {
@@ -796,7 +816,7 @@ static void scenario_rawserver(void)
 	struct sockaddr_in sin; memset(&sin, 0, sizeof sin); sin.sin_family = AF_INET; sin.sin_addr.s_addr = htonl(INADDR_LOOPBACK);
 	lfd = socket(AF_INET, SOCK_STREAM | SOCK_NONBLOCK, 0);
 	setsockopt(lfd, SOL_SOCKET, SO_REUSEADDR, &one, sizeof one);
-	if (lfd < 0 || bind(lfd, (struct sockaddr *)&sin, sizeof sin) < 0 || listen(lfd, 4) < 0) { mc_fail("harness:raw-listen", "%s", strerror(errno)); if (lfd >= 0) close(lfd); teardown(); return; }
+	if (lfd < 0 || bind_any_port(lfd, &sin) < 0 || listen(lfd, 4) < 0) { mc_fail("harness:raw-listen", "%s", strerror(errno)); if (lfd >= 0) close(lfd); teardown(); return; }
 	port = local_port(lfd);
 	pool = evrpc_pool_new(base);
 	struct evhttp_connection *c = new_pool_connection();
@@ -865,6 +885,7 @@ static void init(void)
 	event_set_log_callback(logcb);
 	signal(SIGPIPE, SIG_IGN);          /* as every network program does: a write to a dead connection must return EPIPE */
 	catalogue_init();
+	(void)mcx_private_netns();         /* own port space per worker when permitted; harmless when not */
 }
 static void body_fn(void)
 {
